@@ -2351,6 +2351,15 @@ func (k *Kernel) loadInitialCommittingView(ctx context.Context, s *kState) error
 		s.Committing.RoundView.PrevCommitProof = ch.Proof
 	}
 
+	// The header that was committed at this height is on record:
+	// it was saved to the committed header store before the committing position was.
+	// Only if it is missing do we fall back to the most voted block of the stored precommits
+	// (with equivocating validators that can name a block we never received).
+	if ch, err := k.hStore.LoadCommittedHeader(ctx, h); err == nil {
+		s.CommittingHeader = ch.Header
+		return nil
+	}
+
 	var maxPower uint64
 	var committingHash string
 
